@@ -28,7 +28,50 @@ RULES = {
         replace='crate::hoist::chain_digest(&self.digest, val)',
         why='Iterator::chain / vec::IntoIter have no vstd model',
         assumes='yields the sequence [digest + 1] ++ val'),
+    # ---- stark/queries.rs
+    'R2_generate_queries': dict(
+        kind='R2',
+        pattern='(0..n).map(|_| $BODY).collect()',
+        replace='{ let mut v__ = Vec::new(); for i__ in 0..n { v__.push($BODY); } v__ }',
+        why='the closure captures `transcript: &mut Transcript`; Verus rejects closures capturing &mut',
+        assumes='std semantics of Range::map(..).collect::<Vec<_>>(): BODY evaluated once per index in increasing order, results pushed in order'),
 }
+
+
+def _match(pat, txt, i):
+    """Match pattern token texts (with $HOLES) against txt starting at i. Returns (end, {hole: (a,b)}) or None.
+    A hole matches the shortest balanced run of tokens up to the next literal pattern token at depth 0."""
+    holes = {}
+    k = i
+    pi = 0
+    while pi < len(pat):
+        pt = pat[pi]
+        if pt.startswith('$') and len(pt) > 1:
+            nxt = pat[pi + 1] if pi + 1 < len(pat) else None
+            depth = 0
+            a = k
+            while k < len(txt):
+                t = txt[k]
+                if depth == 0 and nxt is not None and t == nxt and k > a:
+                    # try to match the remainder here
+                    rest = _match(pat[pi + 1:], txt, k)
+                    if rest is not None:
+                        holes[pt] = (a, k)
+                        holes.update(rest[1])
+                        return rest[0], holes
+                if t in '([{':
+                    depth += 1
+                elif t in ')]}':
+                    depth -= 1
+                    if depth < 0:
+                        return None
+                k += 1
+            return None
+        if k >= len(txt) or txt[k] != pt:
+            return None
+        k += 1
+        pi += 1
+    return k, holes
 
 
 def apply(name, toks, log):
@@ -36,14 +79,33 @@ def apply(name, toks, log):
     if name not in RULES:
         raise AssembleError('unknown rewrite rule ' + name)
     r = RULES[name]
-    pat = [t.text for t in tokenize(r['pattern'])]
-    rep = tokenize(r['replace'])
+    pat = []
+    for t in tokenize(r['pattern']):
+        if pat and pat[-1] == '$' and t.kind == 'id':
+            pat[-1] = '$' + t.text
+        else:
+            pat.append(t.text)
     txt = [t.text for t in toks]
-    hits = [i for i in range(len(txt) - len(pat) + 1) if txt[i:i + len(pat)] == pat]
+    hits = []
+    for i in range(len(txt)):
+        m = _match(pat, txt, i)
+        if m is not None:
+            hits.append((i, m))
     if len(hits) != 1:
         raise AssembleError('lost anchor: rewrite rule %s pattern occurs %d times' % (name, len(hits)))
-    i = hits[0]
+    i, (end, holes) = hits[0]
     line = toks[i].line
-    new = [Tok(t.kind, t.text, -10**9 + t.start, -10**9 + t.end, line) for t in rep]
+    new = []
+    rep = tokenize(r['replace'])
+    j = 0
+    while j < len(rep):
+        t = rep[j]
+        if t.text == '$' and j + 1 < len(rep) and ('$' + rep[j + 1].text) in holes:
+            a, b = holes['$' + rep[j + 1].text]
+            new += toks[a:b]
+            j += 2
+            continue
+        new.append(Tok(t.kind, t.text, -10**9 + t.start, -10**9 + t.end, line))
+        j += 1
     log.append('N4 %s (%s) at line %d: `%s` -> `%s` [%s]' % (name, r['kind'], line, r['pattern'], r['replace'], r.get('assumes', 'no assumption')))
-    return toks[:i] + new + toks[i + len(pat):]
+    return toks[:i] + new + toks[end:]
